@@ -267,7 +267,7 @@ def run(ctx):
         if any(len(v) > 1 for v in pred.values()):
             ctx.feature("graph.diamond-or-merge")
         for start in range(1, nn + 1):
-            la = net._lanelets[start]
+            la = orig(start)
             for direction, rel in (("succ", succ), ("pred", pred)):
                 rel1 = {k + 1: v for k, v in rel.items()}
                 firsts = rel1[start]
@@ -367,7 +367,7 @@ def run(ctx):
         ctx.fingerprint(["mr", [len(p) for p in polys], [p[1][0] - p[0][0] for p in polys]])
         total = polys[-1][-1][0]
         for direction in ("succ", "pred"):
-            start = net._lanelets[1] if direction == "succ" else net._lanelets[k]
+            start = net.find_lanelet_by_id(1) if direction == "succ" else net.find_lanelet_by_id(k)
             _ = [l.distance for l in net.lanelets]
             try:
                 fn = Lanelet.all_lanelets_by_merging_successors_from_lanelet if direction == "succ" else \
